@@ -13,7 +13,7 @@ import (
 // Generators --------------------------------------------------------------------------------------
 
 var (
-	restrictedPool = []string{"application/json", "text/plain", "text/csv", "application/xml", "application/x-yaml", "application/vnd.api+json"}
+	restrictedPool = []string{"application/json", "text/plain", "text/csv", "application/xml", "application/x-yaml", "application/vnd.api+json", "application/x-www-form-urlencoded", "multipart/form-data"}
 	// media types outside the restricted class of the statement's second sentence
 	wildPool    = []string{"Text/Plain", "APPLICATION/JSON", "text/plain; charset=utf-8", "application/json;version=1", "text/*", "*/*", "application/*+json"}
 	foreignPool = []string{"image/png", "text/html", "application/json", "application/json; charset=utf-8", "*/*", "text/plain", "application/x-yaml"}
@@ -520,7 +520,7 @@ func bucket(n int) string {
 const rule = "Swagger 2.0 descriptions (base path, global and per-operation consumes/produces, 0-3 security definitions some unused, global and per-operation OR-of-ANDs requirements incl. anonymous, 1-6 operations over 7 methods, templates with placeholders) loaded with loads.Analyzed " +
 	"x registration calls derived from the exact set by 0-3 generated edits (omit, add a foreign or near name, swap, clear a category, change the case of a media type / method / path / scheme name, register twice, JSON defaults kept or stripped, JSON pair spelled out or implicit); " +
 	"oracle = set model per category in the order consumes, produces, operation, auth scheme, security definitions (media types lower-cased and methods upper-cased as registered, required names as spelled): Validate passes iff all five coincide, else it names the first failing category and exactly the model's missing and superfluous names; " +
-	"a validated API whose media types are lower-case, parameter-free and wildcard-free is served: each operation x each consumes x each produces must answer 200 through its own handler, no panic, no 5xx, no 404/405, and every scheme of the first non-anonymous alternative is consulted; " +
+	"a validated API whose media types are lower-case, parameter-free and wildcard-free is served: each operation x each consumes x each produces (plus one Accept header that prefers a foreign type and settles for a produced one) must answer 200 through its own handler, no panic, no 5xx, no 404/405, and every scheme of the first non-anonymous alternative is consulted; " +
 	"non-trivial = the registration calls differ from the exact ones or the categories do not coincide, or the API validates and is served with >=2 media-type combinations on some operation; distinct by hash of the whole case"
 
 // Props lists the generated checks of C19.
